@@ -13,7 +13,7 @@
 (* reachable and every call refines the atomic link algebra of             *)
 (* Devices.tla (ConnectL / Unlink).                                        *)
 (***************************************************************************)
-EXTENDS Integers, FiniteSets, TLC
+EXTENDS Integers, FiniteSets, TLC, TerminalLinks
 
 CONSTANTS NT, Legacy
 Terms == 1..NT
@@ -21,9 +21,7 @@ Terms == 1..NT
 VARIABLES link, panicked
 vars == <<link, panicked>>
 
-(* the atomic specification (same as Devices.tla) *)
-Unlink(l, i) == IF l[i] = 0 THEN l ELSE [l EXCEPT ![i] = 0, ![l[i]] = 0]
-ConnectL(l, i, j) == [Unlink(Unlink(l, i), j) EXCEPT ![i] = j, ![j] = i]
+(* the atomic specification: Unlink and ConnectL of module TerminalLinks (shared with Devices.tla) *)
 
 (* Terminal::disconnect called on x while the cells in `held' are mutably borrowed: borrows the partner's cell *)
 DisconnectUnder(l, held, x) ==
